@@ -19,15 +19,15 @@ DEFAULT_SEED = 20260924
 
 # property -> engine, per-tier plan (batches, batch size) and engine params
 PROPS = {
-    "C01": {"engine": "cosim", "quick": (96, 40), "thorough": (1600, 40), "params": {}},
-    "C04": {"engine": "cosim", "quick": (96, 40), "thorough": (1600, 40), "params": {}},
-    "C06": {"engine": "cosim", "quick": (96, 40), "thorough": (1600, 40), "params": {}},
-    "C14": {"engine": "histsim", "quick": (96, 60), "thorough": (1600, 60), "params": {"focus": "C14"}},
-    "C15": {"engine": "histsim", "quick": (96, 60), "thorough": (1600, 60), "params": {"focus": "C15"}},
-    "C18": {"engine": "histsim", "quick": (96, 60), "thorough": (1600, 60), "params": {"focus": "C18"}},
-    "C07": {"engine": "envsim", "quick": (96, 30), "thorough": (1600, 30), "params": {"focus": "C07"}},
-    "C08": {"engine": "envsim", "quick": (96, 30), "thorough": (1600, 30), "params": {"focus": "C08"}},
-    "C12": {"engine": "hashsim", "quick": (16, 0), "thorough": (256, 0), "params": {}},
+    "C01": {"engine": "cosim", "quick": (480, 40), "thorough": (6400, 40), "params": {}},
+    "C04": {"engine": "cosim", "quick": (480, 40), "thorough": (6400, 40), "params": {}},
+    "C06": {"engine": "cosim", "quick": (480, 40), "thorough": (6400, 40), "params": {}},
+    "C14": {"engine": "histsim", "quick": (384, 60), "thorough": (6400, 60), "params": {"focus": "C14"}},
+    "C15": {"engine": "histsim", "quick": (384, 60), "thorough": (6400, 60), "params": {"focus": "C15"}},
+    "C18": {"engine": "histsim", "quick": (384, 60), "thorough": (6400, 60), "params": {"focus": "C18"}},
+    "C07": {"engine": "envsim", "quick": (480, 30), "thorough": (4800, 30), "params": {"focus": "C07"}},
+    "C08": {"engine": "envsim", "quick": (480, 30), "thorough": (4800, 30), "params": {"focus": "C08"}},
+    "C12": {"engine": "hashsim", "quick": (32, 0), "thorough": (256, 0), "params": {}},
 }
 
 RULES = {
